@@ -11,7 +11,7 @@ Each harness is registered in gen/harnesses.json:
 import json, os, sys, re
 
 HERE = os.path.dirname(os.path.abspath(__file__))
-OUT = os.path.join(HERE, "fixtures", "src", "gen")
+OUT = os.environ.get("KX_OUT") or os.path.join(HERE, "fixtures", "src", "gen")
 HARNESSES = []
 T_OBLIGATIONS = []   # names of type-level obligations (markers inside generated files)
 
@@ -638,18 +638,27 @@ def fx_digits():
 
 def main():
     os.makedirs(OUT, exist_ok=True)
-    for f in os.listdir(OUT):
-        os.remove(os.path.join(OUT, f))
+    written = set()
+
+    def put(name, text):
+        # write only when changed: keeps cargo's incremental build warm
+        p = os.path.join(OUT, name)
+        written.add(name)
+        if not os.path.exists(p) or open(p).read() != text:
+            open(p, "w").write(text)
     mods = []
     for fx in [fx_basic(), fx_basic(True), fx_multi(), fx_multi(True), fx_digits()]:
         src = emit_contract_fixture(fx)
-        open(os.path.join(OUT, fx["mod"] + ".rs"), "w").write(src + "\n")
+        put(fx["mod"] + ".rs", src + "\n")
         mods.append((fx["mod"], fx["feature"]))
-    with open(os.path.join(OUT, "mod.rs"), "w") as f:
-        f.write("//! GENERATED by kani/gen_fixtures.py — do not edit.\n")
-        for m, feat in mods:
-            f.write("#[cfg(feature = \"%s\")]\npub mod %s;\n" % (feat, m))
-    json.dump(dict(harnesses=HARNESSES, t_obligations=T_OBLIGATIONS), open(os.path.join(OUT, "harnesses.json"), "w"), indent=1)
+    t = "//! GENERATED by kani/gen_fixtures.py — do not edit.\n"
+    for m, feat in mods:
+        t += "#[cfg(feature = \"%s\")]\npub mod %s;\n" % (feat, m)
+    put("mod.rs", t)
+    put("harnesses.json", json.dumps(dict(harnesses=HARNESSES, t_obligations=T_OBLIGATIONS), indent=1))
+    for f in os.listdir(OUT):
+        if f not in written:
+            os.remove(os.path.join(OUT, f))
     print("generated %d fixtures, %d harnesses, %d T obligations" % (len(mods), len(HARNESSES), len(T_OBLIGATIONS)))
 
 
